@@ -207,10 +207,10 @@ def third_party_font(rng, version, space=True):
     return _save(font), info
 
 
-def nanoemoji_font(rng, fmt, v0_expressible=False, bitmaps=False):
+def nanoemoji_font(rng, fmt, v0_expressible=False, bitmaps=False, fit_cbdt=False):
     over = e2e.gen_config(rng, fmt, allow_transform=False)
     vb = None
-    if bitmaps and rng.random() < 0.8:
+    if bitmaps and (fit_cbdt or rng.random() < 0.8):
         # stay inside CBDT's limits (255 px wide at the 128 px strike, signed-byte line metrics)
         upem = over["upem"]
         over.update(ascender=round(upem * 0.8), descender=-round(upem * 0.2), width=rng.choice([0, upem]))
@@ -226,6 +226,20 @@ def nanoemoji_font(rng, fmt, v0_expressible=False, bitmaps=False):
         srcs = [(build.filename_for(s), t, s) for (fn, t, cps), s in zip(srcs, seqs)]
     font, cfg, picos, data = build.build_inprocess(over, srcs)
     return data, dict(format=fmt, config={k: str(v) for k, v in over.items()}, sources=[s[1] for s in srcs], codepoints=[list(s[2]) for s in srcs])
+
+
+def regrouped_font(rng, fmt):
+    """the first and the third glyph share an outline, the second does not: the OT-SVG donor groups 1 and 3, so the
+    target's glyph order has to change when the SVG table is donated (charstring fonts: F19)"""
+    H = '<svg xmlns="http://www.w3.org/2000/svg" viewBox="0 0 100 100">'
+    texts = [H + '<path d="M10,10 L50,10 L50,50 L10,50 Z" fill="#cc0000"/></svg>',
+             H + '<path d="M50,10 L90,90 L10,90 Z" fill="#00aa00"/><path d="M5,5 L20,5 L12,20 Z" fill="#222222"/></svg>',
+             H + '<path d="M40,40 L80,40 L80,80 L40,80 Z" fill="#0000cc"/></svg>',
+             H + '<path d="M10,50 L50,10 L90,50 L50,95 Z" fill="#123456"/></svg>']
+    srcs = [(build.filename_for((0x1F600 + k,)), t, (0x1F600 + k,)) for k, t in enumerate(texts)]
+    over = dict(color_format=fmt, upem=1000, ascender=800, descender=-200, width=rng.choice([1000, 0]), keep_glyph_names=rng.random() < 0.5, output_file="Font.otf")
+    font, cfg, picos, data = build.build_inprocess(over, srcs)
+    return data, dict(format=fmt, config={k: str(v) for k, v in over.items()}, sources=texts, regrouped=True)
 
 
 def overhang_font(rng, fmt):
@@ -422,7 +436,7 @@ def compare_stripped(kept, stripped_data):
 
 
 def run_e2e(report, n, rng, jobs=6):
-    kinds = ["glyf_colr_1", "picosvg", "third1", "glyf_colr_0", "untouchedsvg", "third0", "third_svg", "third_nospace", "cff_colr_1", "cff2_colr_1", "overhang_colr", "overhang_svg"]
+    kinds = ["glyf_colr_1", "picosvg", "third1", "glyf_colr_0", "untouchedsvg", "third0", "third_svg", "third_nospace", "cff_colr_1", "cff2_colr_1", "overhang_colr", "overhang_svg", "cff_colr_1_regrouped", "cff2_colr_1_regrouped"]
     plans = []
     for i in range(n):
         kind = kinds[i % len(kinds)]
@@ -435,8 +449,12 @@ def run_e2e(report, n, rng, jobs=6):
         strip = sub.random() < 0.5
         if kind.startswith("overhang"):
             flags = [f_ for f_ in flags if f_ != "--bitmaps"]  # a bitmap is cut to the advance box by construction
-        if kind.startswith("cff") and i < 10 and "--bitmaps" not in flags:
-            flags += ["--bitmaps"]  # the first charstring fonts always take the bitmap path too (F20)
+        if kind.endswith("_regrouped"):
+            flags = [f_ for f_ in flags if f_ != "--bitmaps"]
+        elif kind.startswith("cff"):
+            # the first charstring font of each flavour always takes the bitmap path (F20), with metrics that fit CBDT;
+            # the second never does, so that it cannot be rejected for a bitmap limit (F19 must show either way)
+            flags = [f_ for f_ in flags if f_ != "--bitmaps"] + (["--bitmaps"] if i < len(kinds) else [])
         plans.append((i, kind, sub, flags, strip))
 
     def work(plan):
@@ -455,10 +473,12 @@ def run_e2e(report, n, rng, jobs=6):
                 data, info = third_party_font(sub, sub.choice([0, 1]), space=False)
             elif kind.startswith("third"):
                 data, info = third_party_font(sub, int(kind[-1]))
+            elif kind.endswith("_regrouped"):
+                data, info = regrouped_font(sub, kind[: -len("_regrouped")])
             elif kind.startswith("overhang"):
                 data, info = overhang_font(sub, "glyf_colr_1" if kind.endswith("colr") else "picosvg")
             else:
-                data, info = nanoemoji_font(sub, kind, v0_expressible="0" in flags, bitmaps="--bitmaps" in flags)
+                data, info = nanoemoji_font(sub, kind, v0_expressible="0" in flags, bitmaps="--bitmaps" in flags, fit_cbdt=kind.startswith("cff"))
         except Exception as ex:
             return plan, dict(kind="e2e", input=kind, error=f"input generation: {type(ex).__name__}: {ex}"), None
         case = dict(kind="e2e", input=kind, flags=flags, **info)
@@ -568,7 +588,7 @@ def main(argv):
     run_stems(report, 300 if tier == "quick" else 3000, rng)
     if common.vo_ok("Model/GlyphmapPairs.v"):
         run_glyphmap_rows(report, 18 if tier == "quick" else 240, random.Random(rng.getrandbits(48)))
-    run_e2e(report, 24 if tier == "quick" else 360, rng, jobs=8)
+    run_e2e(report, 28 if tier == "quick" else 392, rng, jobs=8)
     if not st["proof_ok"] and not report.violations:
         report.violation("proof", dict(kind="proof", theorem="Props/C12.v", detail=report.notes.get("proof_failure")), found_input=False)
     report.open_obligations = [
